@@ -34,11 +34,13 @@ OnTree(P) == ph = "tree" => P
 ParseFull == OnTree(Means(Full(t), t))
 ParseMin  == OnTree(Means(Min(t), t))
 ParseAt   == OnTree(Means(WithAt(t), t))
+ParseLeafy == OnTree(Means(Leafy(t), t))
 \* printing preserves meaning and is a fixpoint after one round
 RoundTrip == OnTree(LET p == ParseText(Min(t)) q == ParseText(Str(p.tree))
                     IN p.ok /\ q.ok /\ Same(q.tree, t, SS) /\ Str(q.tree) = Str(p.tree))
 \* list-of-terms form is the conjunction of its terms, whatever the terms' top-level operator
-ListForm == OnTree(\A u \in Small : LET p == ParseList(<<Min(t), Min(u)>>) IN p.ok /\ Same(p.tree, Bin("and", t, u), SS))
+ListForm == OnTree(\A u \in Small : /\ LET p == ParseList(<<Min(t), Min(u)>>) IN p.ok /\ Same(p.tree, Bin("and", t, u), SS)
+                                    /\ LET p == ParseList(<<Leafy(t), Leafy(u)>>) IN p.ok /\ Same(p.tree, Bin("and", t, u), SS))
 \* {config.tags} substitution by the printed expression acts as substitution of a sub-formula
 Placeholder == OnTree(
    \A u \in Small :
@@ -51,7 +53,7 @@ Placeholder == OnTree(
 EmptyIsTrue == ph = "start" => /\ ParseText(<<>>).ok /\ ParseText(<<" ", " ", " ">>).ok
                                /\ \A k \in DOMAIN SS : Eval(ParseText(<<" ">>).tree, SS[k])
 
-Emit == OnTree(PrintT(<<"CASE", ToJson([min |-> Min(t), full |-> Full(t), at |-> WithAt(t), str |-> Str(t),
+Emit == OnTree(PrintT(<<"CASE", ToJson([min |-> Min(t), full |-> Full(t), at |-> WithAt(t), str |-> Str(t), leafy |-> Leafy(t),
                                         tt |-> TruthTable(t, SS)])>>))
 
 \* operand pools
